@@ -248,6 +248,20 @@ var (
 //go:norace
 func Active() bool { return cur != nil }
 
+// ExecEpoch identifies the running execution.  Synchronisation objects that
+// outlive an execution (package-level variables of the code under test) use it
+// to forget the state a previous execution left behind: an execution that is
+// cut short (pruned, horizon) unwinds its threads wherever they are, also
+// inside critical sections.
+//
+//go:norace
+func ExecEpoch() uint64 {
+	if cur == nil {
+		return 0
+	}
+	return cur.epoch
+}
+
 // Cur returns the scheduler of the running execution (scheduler goroutine or
 // the running thread only).
 //
